@@ -1,19 +1,26 @@
 #!/bin/sh
 # Re-run every seeded change against the check of its property (quick tier) and record the verdict in meta.json.
+# A meta.json may name a "cross_check": the property whose check is responsible for the changed behaviour.
 cd /verif
-for d in seeded/*/; do
+for d in ${@:-seeded/*/}; do
+  d=${d%/}
   id=$(basename $d); pid=${id%%-*}
   git -C /repo diff --quiet || { echo "repo dirty"; exit 2; }
   git -C /repo apply /verif/$d/patch.diff || { echo "$id: patch does not apply"; continue; }
   ./check $pid --tier quick > /tmp/seedrun_$id.log 2>&1; rc=$?
+  by=$pid
+  cross=$(python3 -c "import json,sys; print(json.load(open('$d/meta.json')).get('cross_check',''))")
+  if [ $rc -ne 1 ] && [ -n "$cross" ]; then
+    ./check $cross --tier quick > /tmp/seedrun_$id.log 2>&1; rc=$?; by=$cross
+  fi
   git -C /repo checkout -q -- .
   keys=$(grep -A1 '^VIOLATION' /tmp/seedrun_$id.log | grep -v '^VIOLATION\|^--' | sed 's/: case.*//; s/^ *//' | sort -u | head -6 | tr '\n' ';')
-  echo "$id exit=$rc $keys"
-  python3 - "$d/meta.json" "$rc" "$keys" <<'PY'
+  echo "$id exit=$rc by=$by $keys"
+  python3 - "$d/meta.json" "$rc" "$keys" "$by" <<'PY'
 import json,sys
-p,rc,keys=sys.argv[1],int(sys.argv[2]),sys.argv[3]
+p,rc,keys,by=sys.argv[1],int(sys.argv[2]),sys.argv[3],sys.argv[4]
 m=json.load(open(p))
-m["current_run_of_check"]={"exit":rc,"detected":rc==1,"violated_obligations":[k for k in keys.split(';') if k]}
+m["current_run_of_check"]={"exit":rc,"detected":rc==1,"by_check":by,"violated_obligations":[k for k in keys.split(';') if k]}
 json.dump(m,open(p,'w'),indent=1)
 PY
 done
